@@ -235,7 +235,7 @@ func (w *World) CheckLifecycle(out *Outcome, o *Obs) []Violation {
 			}
 		}
 		// population complete before the first before-initialization callback
-		if snap, ok := o.AtBefore[i.ID]; ok && o.OK() && !subst {
+		if snap, ok := o.AtBefore[i.ID]; ok && o.OK() && !subst && created[i.ID] {
 			for _, pt := range t.Points {
 				a := strings.Join(sortedCopy(snap[pt.Field]), ",")
 				b := strings.Join(sortedCopy(o.Points[i.ID][pt.Field]), ",")
@@ -302,6 +302,39 @@ func (w *World) CheckLifecycle(out *Outcome, o *Obs) []Violation {
 	}
 	if !o.OK() || subst {
 		return vs
+	}
+	// a query by interface creates what it selects (and what that needs), nothing else: a
+	// LazyInit component that neither implements the interface nor is needed by an implementer
+	// stays uncreated
+	{
+		var from, iface int
+		inQuery := false
+		for _, e := range o.Events {
+			switch e.Kind {
+			case "iface-query":
+				inQuery, from = true, e.Seq
+				fmt.Sscan(e.Detail, &iface)
+			case "iface-query-done":
+				inQuery = false
+			case "init", "aps":
+				if !inQuery || e.Seq < from {
+					continue
+				}
+				i := w.Insts[e.Subj]
+				if i == nil || !w.Types[i.Type].Lazy || hasIface(w.Types[i.Type], iface) {
+					continue
+				}
+				needed := false
+				for _, j := range w.P.Instances {
+					if hasIface(w.Types[j.Type], iface) && w.needs(out, j.ID)[i.ID] {
+						needed = true
+					}
+				}
+				if !needed {
+					vs = append(vs, v("C05", "query-created-unselected-lazy-component", i.ID, fmt.Sprintf("GetComponents(InterfaceType(I%d)) after the start initialised the LazyInit component %s (event %d), which neither implements that interface nor is needed by a component that does", iface, i.ID, e.Seq)))
+				}
+			}
+		}
 	}
 	// wiring graph of the successful run
 	edges := map[string][]string{}
